@@ -55,7 +55,7 @@ class AGen(progs.Gen):
         if op == 'partition_timeout':
             u = self._pick_up()
             n = r.choice([1, 2, 3, 4])
-            p = self._new('partition', [u], ('tup', 1), n=n, timeout=r.choice(INT_GRID),
+            p = self._new('partition', [u], ('tup', 1), n=n, timeout=r.choice(INT_GRID + [0, 0.5]),
                           key=self._key_param(K[u]) if r.random() < 0.4 else None)
             return p
         if op in ('timed_window', 'timed_window_unique'):
